@@ -794,7 +794,7 @@ func (c *Compiler) writeNode(node, parent *node, recv, v, vsrc string, depth int
 		case modeLoop:
 			// Loop magic: iterate the map only when the path ends here ...
 			c.wl("if len(path) == ", depths, " {")
-			c.wl("for k := range ", c.fmtV(node, v), " {")
+			c.wl("for k, kv := range ", c.fmtV(node, v), " {")
 			c.wl("if l.RequireKey() {")
 			switch node.mapk.typn {
 			case "string", "[]byte":
@@ -823,7 +823,7 @@ func (c *Compiler) writeNode(node, parent *node, recv, v, vsrc string, depth int
 				}
 				insName += node.mapv.typn + "Inspector"
 			}
-			c.wl("l.SetVal(", c.fmtV(node, v), "[k], &", insName, "{})")
+			c.wl("l.SetVal(kv, &", insName, "{})")
 			c.wl("ctl := l.Iterate()")
 			c.wl("if ctl == inspector.LoopCtlBrk { break }")
 			c.wl("if ctl == inspector.LoopCtlCnt { continue }")
